@@ -351,6 +351,12 @@ pub fn run_given(prop: &str, tier: Tier, pl: crate::catalogue::Plan, replay_offs
             rep.unlisted.push((v.sig.clone(), file));
         }
         rep.scen.push(ScenReport { name: scen.name.clone(), stats: ex.stats.clone(), l: scen.l.len(), p: scen.p.len() });
+        // the verdict is already "violated": do not spend the whole plan's time on a broken tree
+        let budget = if tier == Tier::Quick { 300.0 } else { 1800.0 };
+        if !rep.unlisted.is_empty() && t0.elapsed().as_secs_f64() > budget {
+            println!("WARNING stopping after {} of {} scenarios: unlisted violations were found and {budget} s have passed", rep.scen.len(), pl.scenarios.len());
+            break;
+        }
     }
     rep.wall_s = t0.elapsed().as_secs_f64();
     rep
